@@ -18,13 +18,22 @@ RULE = ('a polling subscriber (Image::poll through hook H3 when the repository h
         'Image::poll) with 1-2 publishers x 1-3 messages (unfragmented, fragmented, padding at the term end, rotation) on 1 KiB / 2 KiB '
         'terms under the deterministic H2 scheduler: random schedules, every schedule with at most one pre-emption of the small '
         'configurations, and - the crash points - every prefix length of a single publisher\'s access sequence after which the '
-        'publisher is stopped for ever while the subscriber keeps polling; plus exclusive-publisher and try_claim/commit/abort '
-        'threads (real ExclusivePublication / BufferClaim, judged by the oracle only - no thread machine). Compared: trace (accessor, region, offset, length, operands, '
-        'value read), per-thread results, final dump, subscriber position, fragments handed to the handler (offset, length, flags, bytes). '
-        'The oracle re-walks the final log, checks the delivered fragments are a prefix of its committed data frames with identical bytes, '
-        'the position rule, no write after a commit, and runs the vector-clock race detector (classes from the regenerated ordering table) '
-        'over the trace. Non-trivial: a reader and a publisher are interleaved (or the publisher is stopped mid-append); distinct = '
-        'distinct (geometry, messages, schedule, crash points)')
+        'publisher is stopped for ever while the subscriber keeps polling; exclusive-publisher and try_claim/commit/abort '
+        'threads (kinds excl, claim). Kinds x*: an EXCLUSIVE publisher (offer_part of unfragmented / fragmented messages, try_claim + '
+        'payload + BufferClaim::set_flags / set_header_type (values 0 .. 0xFFFF) / set_reserved_value + commit or abort, term-end padding, '
+        'rotation) or SHARED claimants (Publication::try_claim, the same claimant actions, next to a shared publisher or a second claimant) '
+        'against a subscriber that polls with EVERY flavour - poll, bounded_poll, controlled_poll, bounded_controlled_poll, controlled_peek '
+        '(+ set_position), block_poll - with handler scripts (Continue / Abort / Break / Commit) and bounds before, at and beyond the '
+        'position: every crash point of the exclusive publisher (stopped after k accesses, k = 0 .. all, the flavour polled first rotating '
+        'with k), one-pre-emption schedules, random schedules, a third with a crash point. For every kind the model (thread machines of '
+        'Model/AppenderThreads, ReaderThreads, ExclThreads, PollThreads, ClaimThreads) runs the same schedule. Compared: trace (accessor, '
+        'region, offset, length, operands, value read), per-thread results, final dump, subscriber position, fragments handed to the '
+        'handler (offset, length, flags, bytes). The oracle re-walks the final log and checks: delivered = the committed data frames of the '
+        'stream in order with identical bytes (kinds x*: repetitions after Abort / peek allowed, nothing else; an aborted claim - identified '
+        'by the position try_claim returned - is padding in the log and never delivered, whatever its claimant wrote into the header), the '
+        'position rule, no write after a commit, the vector-clock race detector (classes from the regenerated ordering table) over the '
+        'trace, nobody panicked. Non-trivial: a reader and a publisher are interleaved (or the publisher is stopped mid-append); distinct = '
+        'distinct (geometry, items, polls, schedule, crash points)')
 ASSUMPTIONS = [
     'interleavings are sequentially consistent at the granularity of the accesses hook H2 reports; for hardware reordering the '
     'happens-before result is combined with the DRF-SC argument, which is assumed, not proved',
@@ -32,6 +41,10 @@ ASSUMPTIONS = [
     '(the classification is computed from the regenerated fence table, the Rust-level status of fence + plain access is named, not resolved)',
     'media driver contract: the partition the subscriber reads is neither zeroed nor rotated into while it is being read',
     'one subscriber position counter per image (one reader thread per case)',
+    'theorems C03_race_free / C03_excl_*: no partition is used by two generations (runs within generations n0 .. n0+2: the driver has '
+    'cleaned nothing, so nothing may be reused); the generated cases keep the limit <= (n0+2) * term length',
+    'theorems for the poll flavours cover poll, bounded_poll, controlled_poll, bounded_controlled_poll; controlled_peek and block_poll '
+    'and the shared claimant are covered by the model comparison and the oracle only',
     'the hook reports the header burst of HeaderWriter::write as the whole 32-byte header; its real extent is taken from the '
     'assignments in the source (K1 header_burst_fields)',
 ]
